@@ -164,7 +164,10 @@ def check():
                 seen.add("Code")
                 L.expect_unsat("http_status_code: Code only for HttpStatus::Code", cond + [S.disc(S.v(st)) != E.index("HttpStatus", "Code")], on_sat)
                 code = ms.proj(ms.proj(st, ("v", "Code"), E), ("f", 0), E)
-                okc = p.ret[2][0][0] == "app" and p.ret[2][0][1].endswith("Into::into") and p.ret[2][0][2] == (code,)
+                # NonZeroU16 -> u16 by any of the lossless conversions (into / get / u16::from), applied to that very code
+                cv = p.ret[2][0]
+                okc = cv[0] == "app" and re.search(r"(Into::into|NonZero\w*::get|NonZero::<u16>::get|From::from|::get)$", cv[1]) is not None and \
+                    len(cv[2]) == 1 and (cv[2][0] == code or cv[2][0] == ("addr", code))
                 structural("http_status_code: StatusCode::Code carries the status' own code", okc)
             elif nm.endswith("StatusCode::Range"):
                 rng = ms.proj(ms.proj(st, ("v", "Range"), E), ("f", 0), E)
